@@ -58,6 +58,11 @@ _c13("K13-excl1-fillbuf", "c13_exclude1_fillbuf", ["Exclude::{new,advance}", "Do
 _c13("K13-excl1-count", "c13_exclude1_count", ["Exclude::{new,advance}", "DocSet::count_including_deleted (default)"], "one call", title="count_including_deleted on Exclude", tiers="t", timeout=900)
 _c13("K13-sunion-count", "c13_simple_union_count", ["SimpleUnion::{build,count_including_deleted,advance_to_next}"], "one call", title="SimpleUnion::count_including_deleted = |A∪B|", tiers="t", timeout=900)
 _c13("K13-sunion-bitset", "c13_simple_union_bitset_block", ["SimpleUnion::{build,seek,advance}", "DocSet::fill_bitset_block (default)"], "one call", title="fill_bitset_block on SimpleUnion", tiers="t", timeout=900)
+_c13("K13-phraseprefix-sd", "c13_phrase_prefix_single_seek_danger", ["PhrasePrefixScorer::<ArrPostings>::{new,seek_danger,matches_prefix,doc,phrase_count}", "PhraseKind::{seek,advance,get_intersection}", "phrase_query::intersection_count"],
+     "term + one prefix expansion over array postings: <= 2 docs per list, 1 symbolic position per doc; one seek_danger(t) call (+ recovery call)", tiers="t", timeout=2400, mem=30,
+     title="PhrasePrefixScorer (single-prefix kind): seek_danger(t) = Found iff t is a match, lower bound otherwise", unwindset=GO_FIRST + [("binary_search", 10)])
+_c13("K13-phraseprefix-sa", "c13_phrase_prefix_single_seek_adv", ["PhrasePrefixScorer::{new,advance,seek}"], "as above, one advance / seek(t) call", tiers="t", timeout=2400, mem=30,
+     title="PhrasePrefixScorer: advance / seek observe the sorted sequence of phrase-prefix matches", unwindset=GO_FIRST + [("binary_search", 10)])
 _c13("K13-disj-p2", "c13_disjunction_msm2_prog2", ["Disjunction::<ConstScorer<Arr>,SumCombiner>::{new,advance,doc,score}", "BinaryHeap<ScorerWrapper<_>>", "DocSet::seek (default)"],
      "3 leaves x <=2 docs, minimum_matches_required = 2, programs of 2 calls; unwind 5 + swap loops 20",
      title="Disjunction(min-should-match 2) = docs in >=2 leaves; score = sum of matching", tiers="t", unwindset=[("swap_nonoverlapping", 20)], timeout=900)
@@ -251,12 +256,12 @@ for _n in (64, 70, 129):
 # ---------------------------------------------------------------------------------------------
 K("C05", "K05-ownedbytes", "c05_ownedbytes_views_compose", crate="ownedbytes", timeout=400, title="OwnedBytes slice / split / advance compose by offsets; earlier views are not disturbed",
   functions=["OwnedBytes::{new,slice,split,advance,as_slice,len}"], bounds="8-byte backing array, symbolic cut points; unwind 10")
-K("C18", "K18-lock-machine-3", "c18_lock_state_machine_3steps", timeout=900, title="default Directory::acquire_lock + DirectoryLockGuard: at most one live guard; acquire Ok iff free; failed acquire changes nothing; drop frees",
+K("C18", "K18-lock-machine-2", "c18_lock_state_machine_2steps", timeout=1800, tiers="t", mem=30, title="default Directory::acquire_lock + DirectoryLockGuard: at most one live guard; acquire Ok iff free; failed acquire changes nothing; drop frees",
   functions=["Directory::acquire_lock (default)", "directory::try_acquire_lock", "DirectoryLockGuard::drop", "retry_policy", "RetryPolicy::wait_and_retry"],
-  bounds="every program of 3 steps over {acquire, acquire with injected I/O error, drop guard}; unwind 3",
+  bounds="every program of 2 steps over {acquire, acquire with injected I/O error, drop guard}; unwind 3 (measured: no answer in 900 s - kept in the thorough tier only)",
   assumes=["stub directory with one lock slot and create-new semantics of open_write (what MmapDirectory / RamDirectory provide)"])
-K("C18", "K18-lock-machine-4", "c18_lock_state_machine_4steps", timeout=1800, tiers="t", title="lock state machine, programs of 4 steps",
-  functions=["Directory::acquire_lock (default)", "try_acquire_lock", "DirectoryLockGuard::drop"], bounds="4 steps")
+K("C18", "K18-lock-io-error", "c18_lock_io_error_then_acquire", timeout=300, title="an I/O error while creating the lock file is reported as LockError::IoError and leaves the lock free",
+  functions=["Directory::acquire_lock (default)", "try_acquire_lock"], bounds="fixed scenario: failing acquire, then acquire")
 K("C18", "K18-lock-fixed", "c18_lock_fixed_scenario", timeout=300, title="acquire / acquire -> LockBusy / drop / acquire on the default lock implementation",
   functions=["Directory::acquire_lock (default)", "try_acquire_lock", "DirectoryLockGuard::drop"], bounds="fixed 4-call scenario")
 K("C18", "K18-lock-statics", "c18_lock_statics", timeout=300, title="INDEX_WRITER_LOCK is non-blocking, META_LOCK blocking, different files",
